@@ -49,7 +49,7 @@ func NewResult() *Result {
 }
 
 func (r *Result) Count(name string, n int) { r.Counters[name] += n }
-func (r *Result) Key(parts ...any)          { r.Keys = append(r.Keys, HashString(fmt.Sprint(parts...))) }
+func (r *Result) Key(parts ...any)         { r.Keys = append(r.Keys, HashString(fmt.Sprint(parts...))) }
 func (r *Result) Fail(class, format string, a ...any) *Result {
 	if r.Violation == nil {
 		r.Violation = &Violation{Class: class, Message: fmt.Sprintf(format, a...)}
@@ -251,8 +251,16 @@ func doWorker(e Engine, x *Ctx, tier string, seed uint64, w, n int, out string, 
 		}
 	}()
 	plan := e.Plan(tier, seed)
+	todo := map[int]bool{}
+	if b, err := os.ReadFile(out + ".todo"); err == nil {
+		var idx []int
+		json.Unmarshal(b, &idx)
+		for _, i := range idx {
+			todo[i] = true
+		}
+	}
 	for _, c := range plan {
-		if c.Index%n != w || (only >= 0 && c.Index != only) {
+		if !todo[c.Index] {
 			continue
 		}
 		os.WriteFile(out+".cur", []byte(fmt.Sprint(c.Index)), 0o644)
@@ -336,43 +344,96 @@ func coordinate(e Engine, x *Ctx, o coordOpts) int {
 		cmd *exec.Cmd
 		out string
 	}
-	procs := make([]wproc, n)
-	for w := 0; w < n; w++ {
-		out := filepath.Join(dir, fmt.Sprintf("w%d.jsonl", w))
-		args := append(selfArgs(e, o), "-worker", fmt.Sprint(w), "-workers", fmt.Sprint(n), "-out", out)
-		if o.only >= 0 {
-			args = append(args, "-case", fmt.Sprint(o.only))
-		}
-		cmd := exec.Command(exe, args...)
-		cmd.Stdout = os.Stderr
-		cmd.Stderr = os.Stderr
-		if err := cmd.Start(); err != nil {
-			fmt.Fprintln(os.Stderr, err)
-			return exitInfra
-		}
-		procs[w] = wproc{cmd, out}
-	}
 	infra := false
 	var hangs, crashes []int
-	for w := range procs {
-		err := procs[w].cmd.Wait()
-		if b, herr := os.ReadFile(procs[w].out + ".hang"); herr == nil {
-			var idx int
-			fmt.Sscan(string(b), &idx)
-			hangs = append(hangs, idx)
-		} else if err != nil {
-			// the process died (fatal runtime error such as stack exhaustion or out of memory,
-			// which recover() cannot catch): the case it was running is re-run alone below
-			if b, cerr := os.ReadFile(procs[w].out + ".cur"); cerr == nil {
+	pending := map[int]bool{}
+	for i := range plan {
+		if o.only < 0 || i == o.only {
+			pending[i] = true
+		}
+	}
+	var outs []string
+	// Rounds: a worker that hangs or dies takes only its current case with it; the cases it had not
+	// reached are redistributed in the next round.
+	for round := 0; len(pending) > 0 && round < 8; round++ {
+		var idxs []int
+		for i := range pending {
+			idxs = append(idxs, i)
+		}
+		sort.Ints(idxs)
+		nw := n
+		if nw > len(idxs) {
+			nw = len(idxs)
+		}
+		procs := make([]wproc, nw)
+		for w := 0; w < nw; w++ {
+			out := filepath.Join(dir, fmt.Sprintf("r%dw%d.jsonl", round, w))
+			var mine []int
+			for k, i := range idxs {
+				if k%nw == w {
+					mine = append(mine, i)
+				}
+			}
+			b, _ := json.Marshal(mine)
+			os.WriteFile(out+".todo", b, 0o644)
+			args := append(selfArgs(e, o), "-worker", fmt.Sprint(w), "-workers", fmt.Sprint(nw), "-out", out)
+			cmd := exec.Command(exe, args...)
+			cmd.Stdout = os.Stderr
+			cmd.Stderr = os.Stderr
+			if err := cmd.Start(); err != nil {
+				fmt.Fprintln(os.Stderr, err)
+				return exitInfra
+			}
+			procs[w] = wproc{cmd, out}
+			outs = append(outs, out)
+		}
+		progress := false
+		for w := range procs {
+			err := procs[w].cmd.Wait()
+			if b, herr := os.ReadFile(procs[w].out + ".hang"); herr == nil {
 				var idx int
 				fmt.Sscan(string(b), &idx)
-				crashes = append(crashes, idx)
-				fmt.Fprintf(os.Stderr, "worker %d died in case %d: %v\n", w, idx, err)
-			} else {
-				fmt.Fprintf(os.Stderr, "worker %d: %v\n", w, err)
-				infra = true
+				hangs = append(hangs, idx)
+				delete(pending, idx)
+				progress = true
+			} else if err != nil {
+				// the process died (fatal runtime error such as stack exhaustion or out of memory,
+				// which recover() cannot catch): the case it was running is re-run alone below
+				if b, cerr := os.ReadFile(procs[w].out + ".cur"); cerr == nil {
+					var idx int
+					fmt.Sscan(string(b), &idx)
+					crashes = append(crashes, idx)
+					delete(pending, idx)
+					progress = true
+					fmt.Fprintf(os.Stderr, "worker %d died in case %d: %v\n", w, idx, err)
+				} else {
+					fmt.Fprintf(os.Stderr, "worker %d: %v\n", w, err)
+					infra = true
+				}
+			}
+			// results written so far
+			if f, err := os.Open(procs[w].out); err == nil {
+				sc := bufio.NewScanner(f)
+				sc.Buffer(make([]byte, 1<<20), 1<<30)
+				for sc.Scan() {
+					var l workerLine
+					if json.Unmarshal(sc.Bytes(), &l) == nil {
+						if pending[l.Index] {
+							delete(pending, l.Index)
+							progress = true
+						}
+					}
+				}
+				f.Close()
 			}
 		}
+		if !progress {
+			break
+		}
+	}
+	procs := make([]wproc, len(outs))
+	for i, out := range outs {
+		procs[i] = wproc{nil, out}
 	}
 
 	results := make([]*workerLine, len(plan))
@@ -551,25 +612,25 @@ func coordinate(e Engine, x *Ctx, o coordOpts) int {
 			samples = append(samples, map[string]any{"note": "no sample recorded"})
 		}
 		cov := map[string]any{
-			"evaluations":         total.Evals,
-			"distinct_nontrivial": len(keys),
-			"rule":                meta.Rule,
-			"samples":             samples,
-			"exhaustive":          false,
-			"simulated_runs":      len(plan),
-			"runs_per_hour":       int(float64(len(plan)) / wall * 3600),
+			"evaluations":          total.Evals,
+			"distinct_nontrivial":  len(keys),
+			"rule":                 meta.Rule,
+			"samples":              samples,
+			"exhaustive":           false,
+			"simulated_runs":       len(plan),
+			"runs_per_hour":        int(float64(len(plan)) / wall * 3600),
 			"evaluations_per_hour": int(float64(total.Evals) / wall * 3600),
-			"seeds":               fmt.Sprintf("VERIF_SEED=%d; one derived tape seed per case (%d cases)", o.seed, len(plan)),
-			"simulated_time_ns":   total.SimNs,
-			"faults_fired":        faults,
-			"counters":            total.Counters,
-			"known_findings_hit":  total.Known,
-			"skipped":             total.Skipped,
-			"real_components":     meta.RealCode,
-			"stub_components":     meta.Stubs,
-			"workers":             n,
-			"repo_tree":           o.repoTree,
-			"violation_classes":   violationNotes,
+			"seeds":                fmt.Sprintf("VERIF_SEED=%d; one derived tape seed per case (%d cases)", o.seed, len(plan)),
+			"simulated_time_ns":    total.SimNs,
+			"faults_fired":         faults,
+			"counters":             total.Counters,
+			"known_findings_hit":   total.Known,
+			"skipped":              total.Skipped,
+			"real_components":      meta.RealCode,
+			"stub_components":      meta.Stubs,
+			"workers":              n,
+			"repo_tree":            o.repoTree,
+			"violation_classes":    violationNotes,
 		}
 		ev := map[string]any{
 			"property_id": e.ID(),
